@@ -179,6 +179,7 @@ for k, v in round8.items():
 
 # parts added in the ninth session (DESIGN.md §11.10)
 round9 = {
+ "C11": " Drop-by-a-stranger part: a feed started on a collection through one handle; another handle that never opened the collection drops it and creates the same name again; documents of the new collection must not reach the old feed (a second feed on the new collection is the fence).",
  "C07": " Refused-inside-the-transaction part (shared with C17, own PRNG stream): a write of body and xattrs whose statement is refused by an unevaluable expression index applies none of it (complete read-back unchanged).",
  "C12": " WithMeta-at-the-high-water-mark part (model-free): SetWithMeta / DeleteWithMeta with a CAS exactly equal to, just below and above the collection's newest CAS, the index brought up to date after every call; a non-stale query over a view that emits every document must return exactly the keys Exists reports.",
  "C19": " Rows-without-a-body part (model-free): raw entry points handed a nil body (SetRaw, AddRaw, WriteCas raw, an Update callback returning nil) leave rows without a body; after every third call the ids returned by a query over $_keyspace must be exactly the keys that Exists / GetRaw report.",
